@@ -19,8 +19,18 @@ sys.path.insert(0, os.path.dirname(os.path.abspath(__file__)))
 import vlib  # noqa: E402
 
 
-def run_cases(wc, pid, cases, timeout=900, sub=None):
-    """cases: list of case texts.  Returns list of (obs, model, oracle)."""
+def run_cases(wc, pid, cases, timeout=900, sub=None, par=1):
+    """cases: list of case texts.  Returns list of (obs, model, oracle, same)."""
+    if par > 1 and len(cases) > par:
+        from concurrent.futures import ThreadPoolExecutor
+        chunks = [cases[i::par] for i in range(par)]
+        with ThreadPoolExecutor(par) as ex:
+            parts = list(ex.map(lambda ch: run_cases(wc, pid, ch, timeout, sub, 1), chunks))
+        res = [None] * len(cases)
+        for k, part in enumerate(parts):
+            for j, r in enumerate(part):
+                res[k + j * par] = r
+        return res
     hname = sub or pid
     obs = [None] * len(cases)
     start = 0
@@ -112,7 +122,8 @@ def generic_t1(chk, wc, mod, tier, seed):
         gen = list(mod.gen(rng.fork(), tier, sub) if sub else mod.gen(rng.fork(), tier))
         cases = corpus + gen
         t0 = time.time()
-        res = run_cases(wc, pid, cases, sub=sub, timeout=getattr(mod, "TIMEOUT", {}).get(tier, 1500))
+        res = run_cases(wc, pid, cases, sub=sub, timeout=getattr(mod, "TIMEOUT", {}).get(tier, 1500),
+                        par=getattr(mod, "PARALLEL", {}).get(sub or pid, 1))
         vlib.log("%s%s: %d cases in %.1fs" % (pid, "/" + sub if sub else "", len(cases), time.time() - t0))
         nfail = 0
         for c, (obs, model, oracle, same) in zip(cases, res):
@@ -124,6 +135,12 @@ def generic_t1(chk, wc, mod, tier, seed):
             bad_tie = (not bad_oracle) and not same
             if not (bad_oracle or bad_tie):
                 continue
+            if sub in getattr(mod, "RETRY_FLAKY", ()):
+                # timing-dependent observation: a failure counts only if it repeats when the case runs alone
+                again = [run_cases(wc, pid, [c], sub=sub)[0] for _ in range(2)]
+                if any(r[2] == "ok" and r[3] for r in again):
+                    chk.cov["flaky_reruns"] = chk.cov.get("flaky_reruns", 0) + 1
+                    continue
             nfail += 1
             if nfail > 3:
                 continue
@@ -140,6 +157,8 @@ def generic_t1(chk, wc, mod, tier, seed):
                 "sub": sub,
                 "case": small,
                 "original_case": c,
+                "original_impl_observation": obs,
+                "original_oracle": oracle,
                 "impl_observation": o2,
                 "model_observation": m2,
                 "oracle": or2,
